@@ -408,6 +408,14 @@ def run_property(mod, ctx, replay_path=None):
     bad, coq_errors = run_coq_cases(ctx, mod.HMODULE, [cases[i].coq for i in idx_with_coq],
                                     shard=getattr(mod, "SHARD", 250))
   bad_cases = [idx_with_coq[b] for b in bad]
+  extra_bad = {}
+  if ok_build:
+    for fn in getattr(mod, "EXTRA_CHECK_FNS", []):
+      b2, e2 = run_coq_cases(ctx, mod.HMODULE, [cases[i].coq for i in idx_with_coq],
+                             shard=getattr(mod, "SHARD", 250), check_fn=fn)
+      coq_errors.extend(e2)
+      if b2:
+        extra_bad[fn] = [idx_with_coq[b] for b in b2]
 
   # 4. verdict
   known = [e for e in load_known(pid) if e.get("status") == "open"]
@@ -451,6 +459,9 @@ def run_property(mod, ctx, replay_path=None):
   if bad_cases:
     i = min(bad_cases, key=shrink_key)
     broken.append("model and implementation disagree on %d case(s), e.g. case %d" % (len(bad_cases), i))
+  for fn, lst in extra_bad.items():
+    broken.append("in-Coq check %s fails on %d case(s), e.g. %s" % (
+        fn, len(lst), json.dumps(cases[lst[0]].desc, default=str)[:400]))
   extra_stats = {}
   if hasattr(mod, "extra") and not replay_path:
     for kind, msg, payload, found in mod.extra(ctx, extra_stats):
